@@ -116,6 +116,8 @@ opaque bloomFalsePositives : Nat → HashSet Path
 def bloom_new (n : Nat) : HashSet Path := bloomFalsePositives n
 /-- `Iterator::flatten` over `Result` items: the `Ok` ones -/
 def flatten (l : List α) : List α := l
+/-- `std::io::Error::other(msg)` (the message is not modelled) -/
+def io_other (_msg : Str) : Err := .io
 /-- the text of an error message (never inspected by the program) -/
 def opaqueMsg : Str := []
 def as_millis (d : Duration) : Nat := d / 1000000
